@@ -17,6 +17,7 @@ EXPLANATION = (
     "are cursor positions / span ends (char boundaries); `position - 1` only directly after a single-byte character. "
     "R4 (LOOP): every CFG cycle on the path contains a call that consumes a finite input. R5: the statement counter is "
     "guarded before it can exceed 16 bits."
+    " R1's ledger entries may name the match arm that must dominate the site (a slice justified by 'the token is a string literal' must sit inside that arm); thread-local re-entrancy is a ledger site."
 )
 NOT_DECIDED = "termination as such (R4 is its structural part), the wording of diagnostics, memory exhaustion; miette's rendering is external code"
 
